@@ -775,7 +775,8 @@ static int read_event_ft2(struct context_data *ctx, struct xmp_event *e, int chn
 		 *  FastTracker2 quirk. See Armada Tanks game.it (actually an XM).
 		 *  Reported by Vladislav Suschikh.
 		 */
-		if (HAS_QUIRK(QUIRK_FT2BUGS) && xc->offset.val >= mod->xxs[sub->sid].len) {
+		if (HAS_QUIRK(QUIRK_FT2BUGS) && sub->sid >= 0 && sub->sid < mod->smp &&
+		    xc->offset.val >= mod->xxs[sub->sid].len) {
 			libxmp_virt_resetchannel(ctx, chn);
 		} else {
 
